@@ -67,6 +67,7 @@ type c10Case struct {
 	Txs       []string  `json:"txs,omitempty"` // descriptions with result codes
 	OwnStakeDiff []string `json:"own_stake_diff,omitempty"`
 	Quiet     int64     `json:"quiet"`
+	Absent    []int     `json:"absent,omitempty"` // members of LastCommitInfo with SignedLastBlock=false
 	LastRefused string  `json:"last_refused,omitempty"` // the last transaction of the block was refused by Validate (cause)
 	Released  []int     `json:"released,omitempty"`  // validators whose RELEASE succeeded in this block
 	TwinDiff  string    `json:"twin_diff,omitempty"` // a replica restarted after the release returned other validator updates
@@ -154,6 +155,11 @@ func (sc *c10Scenario) genesis() *GenesisSpec {
 }
 
 func c10Scen(r *rand.Rand, kind string) *c10Scenario {
+	fixedVariant := -1
+	if strings.HasPrefix(kind, "absent_leaves:") { // the route is part of the kind name
+		fmt.Sscanf(kind, "absent_leaves:%d", &fixedVariant)
+		kind = "absent_leaves"
+	}
 	sc := &c10Scenario{Kind: kind, Min: 1000, Bvd: 4}
 	nv, ne := 1+r.Intn(4), r.Intn(9)
 	sc.Top = int64(1 + r.Intn(5))
@@ -170,6 +176,14 @@ func c10Scen(r *rand.Rand, kind string) *c10Scenario {
 		nv, ne, sc.Top, sc.Blocks, sc.Ties, sc.Bvd = 4, 0, 4, 10, false, 6
 	case "restake":
 		nv, ne, sc.Top, sc.Blocks, sc.Ties = 3, 0, 4, 9, false
+	case "absent_leaves":
+		// a validator whose node is down (absent in LastCommitInfo) leaves the election by one of three
+		// routes (0 frozen for missed votes, 1 unstaked below the minimum, 2 out-staked); then quiet blocks
+		sc.Variant = r.Intn(3)
+		if fixedVariant >= 0 {
+			sc.Variant = fixedVariant
+		}
+		nv, ne, sc.Top, sc.Blocks, sc.Ties, sc.Bvd = 4, 1, 4, 18, false, 4
 	case "refused_last":
 		// a validator leaves the election (below the minimum / frozen / out-staked) and every block ends
 		// with a transaction that Validate refuses
@@ -341,6 +355,35 @@ func (g *c10Gen) block(h int64, rep *Replica) (BlockIn, []string) {
 			add(txUnstake(sc.Extra[0], oltAmt("7000"), g.memo()), "unstake extra0 7000")
 		}
 		return in, descr
+	case "absent_leaves":
+		target := sc.Vals[0] // the weakest genesis validator (so that a newcomer out-stakes exactly it)
+		down := h >= 3
+		if sc.Variant == 0 && g.frozenAt == 0 {
+			// signs one block in four until the missed-votes scan freezes it, then never again
+			down = h >= 3 && h%4 != 0
+			for _, k := range sortedKeys(d) {
+				if strings.HasPrefix(k, "es__ssvk_") {
+					if lvh, err := (&evidence.LastValidatorHistory{}).FromBytes([]byte(d[k])); err == nil && lvh.IsFrozen() && bytes.Equal(lvh.Address, target.Val.Addr) {
+						g.frozenAt, down = h, true
+					}
+				}
+			}
+		}
+		if down && h > 1 {
+			for i, tv := range rep.valSet(h - 1).Validators {
+				if bytes.Equal(tv.Address, target.Val.Addr) {
+					in.Absent[i] = true
+				}
+			}
+		}
+		if h == 4 && sc.Variant == 1 {
+			a := fmt.Sprintf("%d", g.stakeOf(d, target)-500)
+			add(txUnstake(target, oltAmt(a), g.memo()), "unstake val0 down to 500 (node down)")
+		}
+		if h == 4 && sc.Variant == 2 {
+			add(txStake(sc.Extra[0], oltAmt("9000"), g.memo()), "stake extra0 9000 (out-stakes the weakest)")
+		}
+		return in, descr
 	case "refused_last":
 		if h == 3 {
 			switch sc.Variant {
@@ -501,6 +544,9 @@ func (g *c10Gen) block(h int64, rep *Replica) (BlockIn, []string) {
 	// missed votes: one validator stops signing for a while
 	if g.lazy < 0 && r.Intn(8) == 0 {
 		g.lazy, g.lazyUntil = r.Intn(len(cands)), h+int64(3+r.Intn(5))
+		if r.Intn(3) == 0 {
+			g.lazyUntil = 1 << 40 // the node stays down
+		}
 	}
 	if g.lazy >= 0 {
 		if h > g.lazyUntil {
@@ -591,6 +637,11 @@ func c10Run(r *rand.Rand, kind string, hist int) []c10Case {
 				c.LA = append(c.LA, ids.addr(tv.Address))
 			}
 			sort.Ints(c.LA)
+			for i, tv := range rep.valSet(h - 1).Validators {
+				if in.Absent[i] {
+					c.Absent = append(c.Absent, ids.addr(tv.Address))
+				}
+			}
 		}
 		c.Frozen = c10Frozen(prev, ids)
 		rep.BeginBlock(&in)
@@ -834,7 +885,7 @@ func c10Main(args []string) int {
 		must(ioutil.WriteFile(*child, bz, 0644))
 		return 0
 	}
-	kinds := []string{"e10", "unstake_all", "ghost", "frozen", "release", "restake", "refused_last", "mixed", "mixed", "mixed", "mixed", "mixed"}
+	kinds := []string{"e10", "unstake_all", "ghost", "frozen", "release", "absent_leaves:0", "restake", "refused_last", "absent_leaves:1", "absent_leaves:2", "mixed", "mixed", "mixed", "mixed", "mixed"}
 	cases := []c10Case{}
 	for i := 0; i < *n; i++ {
 		kind := kinds[i%len(kinds)]
